@@ -9,8 +9,7 @@
    2. The user database (passwd/group) as a record of functions [userdb]; a table-backed instance
       [db_of_tab] is what the correspondence run feeds with the live pwd/grp contents.
    3. gunicorn/config.py validate_user/validate_group (spellings), gunicorn/util.py
-      set_owner_process (line by line, including Python truthiness of ids and the unassigned
-      [username] local), gunicorn/workers/workertmp.py (chown condition), gunicorn/sock.py
+      set_owner_process (line by line), gunicorn/workers/workertmp.py (chown condition), gunicorn/sock.py
       UnixSocket.bind (umask + chown), gunicorn/workers/base.py Worker.init_process (call order).
    4. The spawn paths of gunicorn/arbiter.py as a process table: boot, a worker dies and is replaced,
       HUP (reload with a possibly different configuration), USR2 (a new master that boots its own
@@ -141,31 +140,26 @@ Definition os_initgroups (n : name) (g : Z) (c : creds) : outcome :=
 
 (* util.set_owner_process(uid, gid, initgroups):
 
-     if gid:
-         if uid:
-             try:    username = get_username(uid)
-             except KeyError: initgroups = False
-         if initgroups:
-             os.initgroups(username, gid)          # `username` is unassigned when uid is falsy
-         if gid != os.getgid():
-             os.setgid(gid)
+     if initgroups:
+         try:
+             os.initgroups(get_username(uid), gid)
+         except KeyError:
+             os.setgroups([gid])              # no passwd entry: that user is a member of no group
+     if gid != os.getgid():
+         os.setgid(gid)
      if uid and uid != os.getuid():
          os.setuid(uid)                                                                       *)
 Definition set_owner_process (uid gid : Z) (ig : bool) (c : creds) : outcome :=
   bind
-    (if truthy gid then
-       let username := if truthy uid then pw_uid_name db uid else None in
-       let ig1 := if truthy uid then (match username with Some _ => ig | None => false end) else ig in
-       bind
-         (if ig1 then
-            match username with
-            | Some n => os_initgroups n gid c
-            | None => Raised UnboundLocalError c
-            end
-          else Done c)
-         (fun c1 => if gid =? rgid c1 then Done c1 else lift (k_setgid gid c1) c1)
+    (if ig then
+       match pw_uid_name db uid with
+       | Some n => os_initgroups n gid c
+       | None => lift (k_setgroups [gid] c) c
+       end
      else Done c)
-    (fun c2 => if truthy uid && negb (uid =? ruid c2) then lift (k_setuid uid c2) c2 else Done c2).
+    (fun c1 =>
+       bind (if gid =? rgid c1 then Done c1 else lift (k_setgid gid c1) c1)
+            (fun c2 => if truthy uid && negb (uid =? ruid c2) then lift (k_setuid uid c2) c2 else Done c2)).
 
 (* ---- files the worker needs after the drop ---- *)
 Record file := { f_uid : Z; f_gid : Z; f_mode : Z }.     (* owner, group, permission bits *)
